@@ -101,11 +101,11 @@ Definition seg_cbs (b : blk) (l : list cev) (fin : bool) : bool :=
   match l with
   | [] => true
   | [CDiscover b1 _] => blk_eqb b b1 && negb (blk_eqb b Llcp)
-  | [CDiscover b1 v; CConnect b2 c] =>
-    fin && blk_eqb b b1 && blk_eqb b b2 && negb (blk_eqb b Llcp) && truthy v && negb (truthy c)
+  | [CDiscover b1 v; CConnect b2 c] =>      (* c false: object returned; c true: exception in the hold phase *)
+    fin && blk_eqb b b1 && blk_eqb b b2 && negb (blk_eqb b Llcp) && truthy v
   | [CDiscover b1 v; CConnect b2 c; CRelease b3 _] =>
     fin && blk_eqb b b1 && blk_eqb b b2 && blk_eqb b b3 && negb (blk_eqb b Llcp) && truthy v && truthy c
-  | [CConnect b1 c] => fin && blk_eqb b b1 && blk_eqb b Llcp && negb (truthy c)
+  | [CConnect b1 c] => fin && blk_eqb b b1 && blk_eqb b Llcp
   | [CConnect b1 c; CRelease b2 _] => fin && blk_eqb b b1 && blk_eqb b b2 && blk_eqb b Llcp && truthy c
   | _ => false
   end.
@@ -245,59 +245,62 @@ Qed.
 Ltac lnorm := repeat rewrite app_nil_r; repeat rewrite <- app_assoc; cbn [app]; repeat rewrite app_nil_r.
 
 Definition hold_tail (h : hold) : list ev := match h with HoldRaise e => [EvRaise e] | _ => [] end.
+(* the hold loops are left only by IOError or KeyboardInterrupt *)
+Definition hold_exn_ok (h : hold) : bool :=
+  match h with HoldRaise XIOError | HoldRaise XKbd => true | HoldRaise _ => false | _ => true end.
 
 Ltac minv_bind H a l1 s1 l2 H1 H2 :=
   apply bind_inv in H; destruct H as (a & l1 & s1 & l2 & H1 & H2 & ?).
 
 Lemma presence_loop_inv : forall fuel has s h l s', presence_loop fuel has s = (h, l, s') ->
-  exists l0, forallb pres_ev l0 = true /\ l = l0 ++ hold_tail h.
+  exists l0, forallb pres_ev l0 = true /\ l = l0 ++ hold_tail h /\ hold_exn_ok h = true.
 Proof.
   induction fuel as [|f IH]; intros has s h l s' H; cbn [presence_loop] in H.
-  - apply ret_inv in H. destruct H as (-> & -> & _). exists []. split; reflexivity.
+  - apply ret_inv in H. destruct H as (-> & -> & _). exists []. repeat split; reflexivity.
   - minv_bind H t l1 s1 l2 H1 H2. subst l. apply poll_term_inv in H1. destruct H1 as [-> Ht].
     assert (Hp : forallb pres_ev (term_log has t) = true) by (unfold term_log; destruct has; reflexivity).
     destruct t.
-    + apply ret_inv in H2. destruct H2 as (-> & -> & _). exists (term_log has true). split; [exact Hp | reflexivity].
+    + apply ret_inv in H2. destruct H2 as (-> & -> & _). exists (term_log has true). split; [exact Hp | split; reflexivity].
     + minv_bind H2 u l3 s3 l4 H3 H4. subst l2. apply emit_inv in H3. destruct H3 as [-> ->].
       minv_bind H4 p l5 s5 l6 H5 H6. subst l4. apply pop_present_inv in H5. subst l5.
       destruct p.
-      * apply IH in H6. destruct H6 as (l0 & H0 & ->). exists (term_log has false ++ [EvPresent] ++ l0).
-        split; [rewrite !forallb_app, Hp, H0; reflexivity | lnorm; reflexivity].
+      * apply IH in H6. destruct H6 as (l0 & H0 & -> & Hx). exists (term_log has false ++ [EvPresent] ++ l0).
+        split; [rewrite !forallb_app, Hp, H0; reflexivity | split; [lnorm; reflexivity | exact Hx]].
       * apply ret_inv in H6. destruct H6 as (-> & -> & _). exists (term_log has false ++ [EvPresent]).
-        split; [rewrite forallb_app, Hp; reflexivity | lnorm; reflexivity].
+        split; [rewrite forallb_app, Hp; reflexivity | split; [lnorm; reflexivity | reflexivity]].
       * minv_bind H6 u2 l7 s7 l8 H7 H8. apply emit_inv in H7. destruct H7 as [-> ->]. apply ret_inv in H8.
         destruct H8 as (-> & -> & _). subst l6. exists (term_log has false ++ [EvPresent]).
-        split; [rewrite forallb_app, Hp; reflexivity | lnorm; reflexivity].
+        split; [rewrite forallb_app, Hp; reflexivity | split; [lnorm; reflexivity | reflexivity]].
       * minv_bind H6 u2 l7 s7 l8 H7 H8. apply emit_inv in H7. destruct H7 as [-> ->]. apply ret_inv in H8.
         destruct H8 as (-> & -> & _). subst l6. exists (term_log has false ++ [EvPresent]).
-        split; [rewrite forallb_app, Hp; reflexivity | lnorm; reflexivity].
+        split; [rewrite forallb_app, Hp; reflexivity | split; [lnorm; reflexivity | reflexivity]].
 Qed.
 
 Lemma card_loop_inv : forall fuel has s h l s', card_loop fuel has s = (h, l, s') ->
-  exists l0, forallb card_ev l0 = true /\ l = l0 ++ hold_tail h.
+  exists l0, forallb card_ev l0 = true /\ l = l0 ++ hold_tail h /\ hold_exn_ok h = true.
 Proof.
   induction fuel as [|f IH]; intros has s h l s' H; cbn [card_loop] in H.
-  - apply ret_inv in H. destruct H as (-> & -> & _). exists []. split; reflexivity.
+  - apply ret_inv in H. destruct H as (-> & -> & _). exists []. repeat split; reflexivity.
   - minv_bind H t l1 s1 l2 H1 H2. subst l. apply poll_term_inv in H1. destruct H1 as [-> Ht].
     assert (Hp : forallb card_ev (term_log has t) = true) by (unfold term_log; destruct has; reflexivity).
     destruct t.
-    + apply ret_inv in H2. destruct H2 as (-> & -> & _). exists (term_log has true). split; [exact Hp | reflexivity].
+    + apply ret_inv in H2. destruct H2 as (-> & -> & _). exists (term_log has true). split; [exact Hp | split; reflexivity].
     + minv_bind H2 u l3 s3 l4 H3 H4. subst l2. apply emit_inv in H3. destruct H3 as [-> ->].
       minv_bind H4 p l5 s5 l6 H5 H6. subst l4. apply pop_card_inv in H5. subst l5.
       destruct p.
       * minv_bind H6 u2 l7 s7 l8 H7 H8. apply emit_inv in H7. destruct H7 as [-> ->]. subst l6.
-        apply IH in H8. destruct H8 as (l0 & H0 & ->). exists (term_log has false ++ [EvSendRsp] ++ [EvProcess] ++ l0).
-        split; [rewrite !forallb_app, Hp, H0; reflexivity | lnorm; reflexivity].
+        apply IH in H8. destruct H8 as (l0 & H0 & -> & Hx). exists (term_log has false ++ [EvSendRsp] ++ [EvProcess] ++ l0).
+        split; [rewrite !forallb_app, Hp, H0; reflexivity | split; [lnorm; reflexivity | exact Hx]].
       * apply ret_inv in H6. destruct H6 as (-> & -> & _). exists (term_log has false ++ [EvSendRsp]).
-        split; [rewrite forallb_app, Hp; reflexivity | lnorm; reflexivity].
-      * apply IH in H6. destruct H6 as (l0 & H0 & ->). exists (term_log has false ++ [EvSendRsp] ++ l0).
-        split; [rewrite !forallb_app, Hp, H0; reflexivity | lnorm; reflexivity].
+        split; [rewrite forallb_app, Hp; reflexivity | split; [lnorm; reflexivity | reflexivity]].
+      * apply IH in H6. destruct H6 as (l0 & H0 & -> & Hx). exists (term_log has false ++ [EvSendRsp] ++ l0).
+        split; [rewrite !forallb_app, Hp, H0; reflexivity | split; [lnorm; reflexivity | exact Hx]].
       * minv_bind H6 u2 l7 s7 l8 H7 H8. apply emit_inv in H7. destruct H7 as [-> ->]. apply ret_inv in H8.
         destruct H8 as (-> & -> & _). subst l6. exists (term_log has false ++ [EvSendRsp]).
-        split; [rewrite forallb_app, Hp; reflexivity | lnorm; reflexivity].
+        split; [rewrite forallb_app, Hp; reflexivity | split; [lnorm; reflexivity | reflexivity]].
       * minv_bind H6 u2 l7 s7 l8 H7 H8. apply emit_inv in H7. destruct H7 as [-> ->]. apply ret_inv in H8.
         destruct H8 as (-> & -> & _). subst l6. exists (term_log has false ++ [EvSendRsp]).
-        split; [rewrite forallb_app, Hp; reflexivity | lnorm; reflexivity].
+        split; [rewrite forallb_app, Hp; reflexivity | split; [lnorm; reflexivity | reflexivity]].
 Qed.
 
 Lemma run_polls_inv : forall n has s b l s', run_polls n has s = (b, l, s') -> forallb poll_ev l = true.
@@ -331,8 +334,8 @@ Ltac minv H :=
   | pop_card _ = _ => apply pop_card_inv in H
   | do_sense _ _ _ = _ => apply do_sense_inv in H; destruct H as (? & ? & ? & ?)
   | do_listen _ _ = _ => apply do_listen_inv in H; destruct H as (? & ? & ? & ?)
-  | presence_loop _ _ _ = _ => apply presence_loop_inv in H; destruct H as (? & ? & ?)
-  | card_loop _ _ _ = _ => apply card_loop_inv in H; destruct H as (? & ? & ?)
+  | presence_loop _ _ _ = _ => apply presence_loop_inv in H; destruct H as (? & ? & ? & ?)
+  | card_loop _ _ _ = _ => apply card_loop_inv in H; destruct H as (? & ? & ? & ?)
   | run_polls _ _ _ = _ => apply run_polls_inv in H
   | (if ?c then _ else _) _ = _ => let E := fresh "E" in destruct c eqn:E; minv H
   | (match ?x with _ => _ end) _ = _ => let E := fresh "E" in destruct x eqn:E; minv H
@@ -343,13 +346,21 @@ Definition res_of (r : bres) : option (out rv) :=
   match r with BNone => None | BRet v => Some (Ret v) | BRaise e => Some (handle e) | BHang => Some Hang end.
 Definition is_fin (r : bres) : bool := match r with BNone => false | _ => true end.
 
+(* callbacks balanced, or an on-connect(true) left pending by an exception in the hold phase *)
+Definition held_ok (r : bres) (x : option (option blk)) : bool :=
+  match x with
+  | Some None => true
+  | Some (Some _) => match r with BRaise XIOError | BRaise XKbd => true | _ => false end
+  | None => false
+  end.
+
 Record block_ok (b : blk) (r : bres) (l : list ev) : Prop := {
   bo_owned : forallb (owned b) l = true;
   bo_cbs : seg_cbs b (cbs l) (is_fin r) = true;
   bo_scan : spec_scan l = res_of r;
   bo_stops : stops_b false l = true;
   bo_noterm : r = BNone -> has_term_true l = false;
-  bo_held : held_after None (cbs l) = Some None }.
+  bo_held : held_ok r (held_after None (cbs l)) = true }.
 Definition block_spec (b : blk) (r : bres) (l : list ev) : Prop := r <> BHang -> block_ok b r l.
 
 Ltac use_facts :=
@@ -377,15 +388,16 @@ Ltac rw_hyps :=
 Ltac simp_tr :=
   rewrite ?cbs_app, ?spec_scan_app, ?stops_app, ?has_term_app, ?forallb_app;
   cbn [cbs cb_of spec_scan decisive out_tail hold_tail app forallb owned blk_eqb has_term_true existsb is_term_true
-       stops_b starts andb orb negb seg_cbs held_after is_fin res_of handle];
+       stops_b starts andb orb negb seg_cbs held_after held_ok is_fin res_of handle];
   rw_hyps;
   cbn [cbs cb_of spec_scan decisive out_tail hold_tail app forallb owned blk_eqb has_term_true existsb is_term_true
-       stops_b starts andb orb negb seg_cbs held_after is_fin res_of handle].
+       stops_b starts andb orb negb seg_cbs held_after held_ok is_fin res_of handle].
 
 Ltac block_tac :=
   subst; use_facts; let Hnh := fresh "Hnh" in intro Hnh; constructor;
   try (let Hr := fresh "Hr" in intro Hr; try discriminate Hr); repeat simp_tr; try reflexivity; try congruence;
-  try (rewrite ?andb_false_r, ?orb_false_r; cbn; reflexivity).
+  try (rewrite ?andb_false_r, ?orb_false_r; cbn; reflexivity);
+  try (match goal with Hx : hold_exn_ok (HoldRaise ?e) = true |- _ => destruct e; cbn in Hx; try discriminate Hx; reflexivity end).
 
 Lemma rdwr_connect_ok fuel has rr s r l s' :
   rdwr_connect fuel has rr s = (r, l, s') -> block_spec Rdwr r l.
